@@ -31,7 +31,7 @@ func addCancelTrigger(rt *rapid.T, c *vcase.Case) string {
 			keys = append(keys, s.ID)
 		}
 	}
-	kind := rapid.SampledFrom([]string{"before-anything", "after-ms", "deploy-begin", "deploy-held", "exec-start", "exec-end", "exec-start+ms"}).Draw(rt, "cancel.when")
+	kind := rapid.SampledFrom([]string{"before-anything", "after-ms", "deploy-begin", "deploy-held", "deploy-held-long", "exec-start", "exec-end", "exec-start+ms"}).Draw(rt, "cancel.when")
 	if len(keys) == 0 && kind != "before-anything" {
 		kind = "after-ms"
 	}
@@ -49,6 +49,14 @@ func addCancelTrigger(rt *rapid.T, c *vcase.Case) string {
 		d.DelayMs = rapid.IntRange(20, 80).Draw(rt, "cancel.hold")
 		c.Script.Deploys["vp://"+k] = d
 		c.Triggers = append(c.Triggers, vrun.Trigger{Action: "cancel", On: "deploy-begin:vp://" + k, AfterMs: rapid.IntRange(1, 15).Draw(rt, "cancel.ms")})
+	case "deploy-held-long":
+		// a deployment that would take far longer than any bound: the deployer honours its context,
+		// so the cancellation has to reach it
+		k := rapid.SampledFrom(keys).Draw(rt, "cancel.step")
+		d := c.Script.Deploys["vp://"+k]
+		d.DelayMs = 30000
+		c.Script.Deploys["vp://"+k] = d
+		c.Triggers = append(c.Triggers, vrun.Trigger{Action: "cancel", On: "deploy-begin:vp://" + k, AfterMs: rapid.IntRange(1, 40).Draw(rt, "cancel.ms")})
 	case "exec-start":
 		k := rapid.SampledFrom(keys).Draw(rt, "cancel.step")
 		c.Triggers = append(c.Triggers, vrun.Trigger{Action: "cancel", On: "exec-start:" + k})
@@ -82,9 +90,42 @@ func tuneCancelBehaviour(rt *rapid.T, c *vcase.Case) {
 	}
 	for _, s := range c.Main.Steps {
 		if s.Kind == "plugin" || s.Kind == "" {
-			s.ClosureTimeoutMs = vcase.LitVal(vcase.IntLit(int64(rapid.IntRange(20, 300).Draw(rt, "closure."+s.ID))))
+			ms := rapid.IntRange(20, 300).Draw(rt, "closure."+s.ID)
+			if rapid.IntRange(0, 4).Draw(rt, "closure0."+s.ID) == 0 {
+				ms = 0
+			}
+			s.ClosureTimeoutMs = vcase.LitVal(vcase.IntLit(int64(ms)))
+			// some deployments take a while to go away
+			if rapid.IntRange(0, 2).Draw(rt, "closedelay?."+s.ID) == 0 {
+				src := s.Src
+				if src == "" {
+					src = "vp://" + s.ID
+				}
+				d := c.Script.Deploys[src]
+				d.CloseDelayMs = rapid.IntRange(5, 80).Draw(rt, "closedelay."+s.ID)
+				c.Script.Deploys[src] = d
+			}
 		}
 	}
+}
+
+// selfClosedMotif adds the steps of "a step that force-closes itself while the run ends": X never
+// ends, ignores the cancel signal, has a (nearly) zero closure timeout and is stopped once Y is done;
+// the run's output needs X's crashed.error, so the run is over while X's slow deployment is still
+// going away.
+func selfClosedMotif(rt *rapid.T, c *vcase.Case) {
+	mk := func(id string) *vcase.Step {
+		return &vcase.Step{ID: id, Kind: "plugin", Op: "op", Input: vcase.MapVal([]string{"key"}, []*vcase.Val{vcase.LitVal(vcase.StrLit(id))})}
+	}
+	x, y := mk("zx"), mk("zy")
+	x.StopIf = vcase.ExprVal(&vcase.Expr{K: "out", Step: "zy", Stage: "outputs", Output: "success"})
+	x.ClosureTimeoutMs = vcase.LitVal(vcase.IntLit(int64(rapid.SampledFrom([]int{0, 0, 10, 40}).Draw(rt, "zx.closure"))))
+	c.Main.Steps = append(c.Main.Steps, x, y)
+	c.Script.Steps["zx"] = vplug.Behaviour{Outcome: "never", OnCancel: "ignore"}
+	c.Script.Steps["zy"] = vplug.Behaviour{Outcome: "success", DelayMs: rapid.IntRange(5, 40).Draw(rt, "zy.delay")}
+	c.Script.Deploys["vp://zx"] = vplug.DeployBehaviour{CloseDelayMs: rapid.IntRange(30, 200).Draw(rt, "zx.closedelay")}
+	c.Main.Outputs = []*vcase.Output{{ID: "success", Val: vcase.MapVal([]string{"e"}, []*vcase.Val{vcase.ExprVal(&vcase.Expr{K: "out", Step: "zx", Stage: "crashed", Output: "error"})})}}
+	c.Labels = append(c.Labels, "motif:step-force-closes-itself-as-the-run-ends")
 }
 
 func genExitPathCase(rt *rapid.T, prop string) *vcase.Case {
@@ -93,6 +134,9 @@ func genExitPathCase(rt *rapid.T, prop string) *vcase.Case {
 	c.WatchdogMs = 15000
 	tuneCancelBehaviour(rt, c)
 	path := rapid.SampledFrom([]string{"natural", "natural", "cancel", "cancel", "cancel", "start-failure", "probe-failure"}).Draw(rt, "exit-path")
+	if path == "natural" && rapid.IntRange(0, 3).Draw(rt, "selfclosed?") == 0 {
+		selfClosedMotif(rt, c)
+	}
 	switch path {
 	case "cancel":
 		c.Labels = append(c.Labels, addCancelTrigger(rt, c))
@@ -127,7 +171,7 @@ func genExitPathCase(rt *rapid.T, prop string) *vcase.Case {
 		}
 		if hasStop {
 			for _, k := range vplug.SortedKeys(c.Script.Steps) {
-				if b := c.Script.Steps[k]; b.Outcome == "never" {
+				if b := c.Script.Steps[k]; b.Outcome == "never" && k != "zx" { // (zx: the motif's step is stopped by zy)
 					b.Outcome = "success"
 					c.Script.Steps[k] = b
 				}
@@ -196,6 +240,11 @@ func TestC05(t *testing.T) {
 
 // tameNever2 makes sure a natural run can end: it applies tameNever only when no cancellation is planned.
 func tameNever2(c *vcase.Case) {
+	for _, l := range c.Labels {
+		if l == "motif:step-force-closes-itself-as-the-run-ends" {
+			return // its only never-ending step is stopped by the motif itself
+		}
+	}
 	if len(c.Triggers) == 0 {
 		tameNever(c)
 	}
